@@ -272,12 +272,19 @@ fn execute(c: &Case, a: &TestAsset) -> Outcome {
         Err(e) => return Outcome { requests: vec![], result: format!("harness:{e}"), remote_manifest_url: None, signer_calls },
     };
     let result = match c.op {
-        "read-sync" | "read-async" => {
+        "read-sync" | "read-async" | "read-file" => {
             let fmt = a.format.clone();
             let bytes = a.bytes.as_ref().clone();
             let asynch = c.op == "read-async";
+            let from_file = c.op == "read-file";
             let r = report::catch_sdk(move || {
-                if asynch {
+                if from_file {
+                    // the file-based entry point (an asset on disk, no side-car next to it)
+                    let dir = tempfile::tempdir().map_err(c2pa::Error::IoError)?;
+                    let p = dir.path().join(format!("asset.{fmt}"));
+                    std::fs::write(&p, &bytes).map_err(c2pa::Error::IoError)?;
+                    Reader::from_context(ctx).with_file(&p)
+                } else if asynch {
                     RT.with(|rt| rt.block_on(Reader::from_context(ctx).with_stream_async(&fmt, Cursor::new(bytes))))
                 } else {
                     Reader::from_context(ctx).with_stream(&fmt, Cursor::new(bytes))
@@ -605,7 +612,7 @@ fn main() {
     let assets_list = build_assets(&mut run);
     let mut cases = Vec::new();
     for (ai, a) in assets_list.iter().enumerate() {
-        for op in ["read-sync", "read-async", "ingredient+sign"] {
+        for op in ["read-sync", "read-async", "read-file", "ingredient+sign"] {
             for bits in 0..16u32 {
                 for csf in 0..3u8 {
                     let cfg = Cfg { rmf: bits & 1 != 0, ocsp: bits & 2 != 0, csf, auto_ts: bits & 4 != 0, tsa: bits & 8 != 0, decode_identity: true };
